@@ -197,6 +197,8 @@ var stimuli = []string{"timeout", "cancel", "cancel from=third", "coop", "coop b
 type scn struct {
 	role  string
 	steps []string
+	cfg   *WorldCfg // nil = the run's default
+	tag   string
 }
 
 // sweepScenarios: every rest state of every role × every outside stimulus (× both chains), each
@@ -219,7 +221,7 @@ func sweepScenarios(rolesWanted []string) []scn {
 					} else {
 						tail = append(tail, "csv")
 					}
-					out = append(out, scn{role, cat(pre[st], tail)})
+					out = append(out, scn{role: role, steps: cat(pre[st], tail)})
 				}
 			}
 		}
